@@ -1,5 +1,1030 @@
 package connmgr
 
-import "verif/harness/internal/vrun"
+import (
+	"bytes"
+	"encoding/json"
+	"fmt"
+	"math/rand"
+	"os"
+	"os/exec"
+	"path/filepath"
+	"regexp"
+	"sort"
+	"strings"
+	"sync"
+	"time"
 
-func RunX01(ctx *vrun.Ctx) error { return nil }
+	"verif/harness/internal/tla"
+	"verif/harness/internal/tlc"
+	"verif/harness/internal/vrun"
+)
+
+// Statements of ConnMgr.tla the specification of the unchanged code (Fix* =
+// FALSE) does not satisfy.  TraceConnMgr reports them per trace in the set
+// "bad"; each is a stable violation key.
+var badKeys = map[string]string{
+	"S2over":  "s2:more-than-target-automatic-requests-after-manual-request-died",
+	"S1stale": "s1:state-established-after-disconnect-without-retry",
+	"S4order": "s4:ondisconnection-before-onconnection",
+	"S5late":  "s5:callback-after-wait-returned",
+	"S4dup":   "s4:callback-twice-for-one-connection",
+}
+
+// ------------------------------------------------------------------------------------
+// tiers
+
+type mcRun struct {
+	name      string
+	scenarios string
+	maxObj    int
+	maxFails  int
+	mfa       int
+	disc, rem int
+	trig      bool
+	accept    int
+	fix       bool     // Fix* = TRUE: the statements as asked for
+	live      []string // temporal properties (LiveSpec)
+	coverage  bool
+	timeout   time.Duration
+}
+
+type tier struct {
+	random   int
+	late     int
+	order    int
+	replays  int
+	batch    int
+	drivers  int
+	race     bool
+	mc       []mcRun
+	banDepth int
+}
+
+func tierFor(ctx *vrun.Ctx) tier {
+	if ctx.Thorough {
+		return tier{random: 1500, late: 24, order: 8, replays: 200, batch: 50, drivers: 6, race: true, banDepth: 5, mc: []mcRun{
+			{name: "auto2-3", scenarios: "ScAuto2", maxObj: 3, maxFails: 1, mfa: 2, disc: 1, rem: 0, fix: true, timeout: 50 * time.Minute},
+			{name: "trig", scenarios: "ScAuto1", maxObj: 2, maxFails: 1, mfa: 3, disc: 2, rem: 0, trig: true, fix: true, timeout: 30 * time.Minute},
+			{name: "inbound", scenarios: "Inbound", maxObj: 1, maxFails: 0, mfa: 3, disc: 0, rem: 0, accept: 3, fix: true, timeout: 30 * time.Minute},
+			{name: "perm", scenarios: "OnePerm", maxObj: 2, maxFails: 1, mfa: 3, disc: 1, rem: 0, fix: true, timeout: 30 * time.Minute},
+			{name: "perm-asis", scenarios: "OnePerm", maxObj: 2, maxFails: 1, mfa: 3, disc: 1, rem: 0, timeout: 30 * time.Minute},
+			{name: "auto1-3", scenarios: "ScAuto1", maxObj: 3, maxFails: 2, mfa: 2, disc: 1, rem: 0, fix: true, timeout: 30 * time.Minute},
+			{name: "auto1", scenarios: "ScAuto1", maxObj: 2, maxFails: 1, mfa: 2, disc: 1, rem: 1, fix: true, timeout: 30 * time.Minute},
+			{name: "auto1-asis", scenarios: "ScAuto1", maxObj: 2, maxFails: 1, mfa: 2, disc: 1, rem: 1, timeout: 30 * time.Minute},
+			{name: "auto2", scenarios: "ScAuto2", maxObj: 2, maxFails: 1, mfa: 2, disc: 1, rem: 0, fix: true, timeout: 30 * time.Minute},
+			{name: "manual", scenarios: "OneManual", maxObj: 2, maxFails: 1, mfa: 3, disc: 1, rem: 0, fix: true, timeout: 30 * time.Minute},
+			{name: "manual-asis", scenarios: "OneManual", maxObj: 2, maxFails: 1, mfa: 3, disc: 1, rem: 0, timeout: 30 * time.Minute},
+			{name: "nogna1", scenarios: "NoGna1", maxObj: 1, maxFails: 2, mfa: 3, disc: 1, rem: 1, fix: true, timeout: 30 * time.Minute},
+			{name: "nogna2", scenarios: "NoGna2", maxObj: 2, maxFails: 1, mfa: 3, disc: 1, rem: 0, fix: true, timeout: 30 * time.Minute},
+			{name: "live", scenarios: "ScLive", maxObj: 5, maxFails: 2, mfa: 2, disc: 1, rem: 0, fix: true, live: []string{"S2Converge"}, timeout: 40 * time.Minute},
+			{name: "live-perm", scenarios: "ScLivePerm", maxObj: 4, maxFails: 1, mfa: 3, disc: 1, rem: 0, fix: true, live: []string{"S2Converge", "S3PermHeld"}, timeout: 40 * time.Minute},
+		}}
+	}
+	return tier{random: 150, late: 8, order: 3, replays: 20, batch: 30, drivers: 4, banDepth: 4, mc: []mcRun{
+		{name: "perm", scenarios: "OnePerm", maxObj: 2, maxFails: 1, mfa: 3, disc: 0, rem: 1, fix: true, timeout: 8 * time.Minute},
+		{name: "permonly", scenarios: "PermOnly", maxObj: 1, maxFails: 1, mfa: 3, disc: 1, rem: 1, fix: true, timeout: 8 * time.Minute},
+		{name: "auto1-disc", scenarios: "ScAuto1", maxObj: 2, maxFails: 1, mfa: 2, disc: 1, rem: 0, fix: true, timeout: 8 * time.Minute},
+		{name: "auto1-rem", scenarios: "ScAuto1", maxObj: 2, maxFails: 1, mfa: 2, disc: 0, rem: 1, fix: true, timeout: 8 * time.Minute},
+		{name: "auto1-asis", scenarios: "ScAuto1", maxObj: 2, maxFails: 1, mfa: 2, disc: 1, rem: 0, timeout: 8 * time.Minute},
+		{name: "inbound", scenarios: "InboundQuick", maxObj: 1, maxFails: 0, mfa: 3, disc: 0, rem: 0, accept: 2, fix: true, timeout: 8 * time.Minute},
+		{name: "live", scenarios: "ScLive1", maxObj: 3, maxFails: 1, mfa: 2, disc: 1, rem: 0, fix: true, live: []string{"S2Converge"}, timeout: 8 * time.Minute},
+	}}
+}
+
+var invsAlways = []string{"TypeOK", "S1Ids", "S3Backoff", "S3OneDial", "S4Cancel", "S4Once", "S4Spawn", "S5Listeners", "S5Wait", "S5Census", "InboundLimit"}
+var invsFixed = []string{"S1Agree", "S1Stale", "S2Bound", "S4Order", "S5Late"}
+var actProps = []string{"S1Trans", "S1IdStable", "S2Replace", "S3Grow", "S3NoRetry", "S4NoReport"}
+
+func (m mcRun) cfg() string {
+	var sb strings.Builder
+	spec := "Spec"
+	if len(m.live) > 0 {
+		spec = "LiveSpec"
+	}
+	fmt.Fprintf(&sb, "SPECIFICATION %s\nCONSTANTS\n  Scenarios <- %s\n  MaxObj = %d\n  MaxFails = %d\n  MaxFailedAttempts = %d\n  MaxDisc = %d\n  MaxRem = %d\n  AllowTrig = %s\n  MaxAccept = %d\n  Record = FALSE\n  FixAuto = %s\n  FixCb = %s\n  FixState = %s\n",
+		spec, m.scenarios, m.maxObj, m.maxFails, m.mfa, m.disc, m.rem, tlaBool(m.trig), m.accept, tlaBool(m.fix), tlaBool(m.fix), tlaBool(m.fix))
+	sb.WriteString("INVARIANTS\n")
+	for _, i := range invsAlways {
+		sb.WriteString("  " + i + "\n")
+	}
+	if m.fix {
+		for _, i := range invsFixed {
+			sb.WriteString("  " + i + "\n")
+		}
+	}
+	sb.WriteString("PROPERTIES\n")
+	if len(m.live) > 0 {
+		for _, p := range m.live {
+			sb.WriteString("  " + p + "\n")
+		}
+	} else if !m.coverage {
+		for _, p := range actProps {
+			sb.WriteString("  " + p + "\n")
+		}
+	}
+	return sb.String()
+}
+
+var reCov = regexp.MustCompile(`(?m)^<(\w+) line \d+, col \d+ to line \d+, col \d+ of module ConnMgr(?: \([\d ]+\))?>: (\d+):(\d+)`)
+
+func actionCounts(out string) map[string]int64 {
+	if i := strings.LastIndex(out, "The coverage statistics at"); i >= 0 {
+		out = out[i:]
+	}
+	m := map[string]int64{}
+	for _, g := range reCov.FindAllStringSubmatch(out, -1) {
+		var n int64
+		fmt.Sscan(g[3], &n)
+		m[g[1]] += n
+	}
+	return m
+}
+
+func tail(s string, n int) string {
+	if len(s) > n {
+		return s[len(s)-n:]
+	}
+	return s
+}
+
+func runMC(ctx *vrun.Ctx, t tier) error {
+	var mu sync.Mutex
+	var firstErr error
+	par := 2
+	if ctx.Thorough {
+		par = 3
+	}
+	sem := make(chan struct{}, par)
+	var wg sync.WaitGroup
+	for _, m := range t.mc {
+		wg.Add(1)
+		sem <- struct{}{}
+		go func(m mcRun) {
+			defer wg.Done()
+			defer func() { <-sem }()
+			res, err := tlc.Run(tlc.Opts{SpecDir: ctx.SpecDir("connmgr"), Module: "MCConnMgr", CfgText: m.cfg(), Workers: 2,
+				Timeout: m.timeout, Scratch: ctx.Scratch, Coverage: m.coverage, HeapGB: 5})
+			mu.Lock()
+			defer mu.Unlock()
+			if err != nil {
+				if firstErr == nil {
+					firstErr = fmt.Errorf("TLC %s: %w", m.name, err)
+				}
+				return
+			}
+			if !res.OK {
+				if firstErr == nil {
+					firstErr = fmt.Errorf("TLC %s: the specification violates %s %s (a counterexample of the specification alone is not a verdict about btcd)\n%s",
+						m.name, res.ErrKind, res.ErrName, tail(res.Output, 2500))
+				}
+				return
+			}
+			ctx.Logf("TLC %s (%s): %d distinct / %d generated states, depth %d, %.0fs", m.name, m.scenarios, res.Distinct, res.Generated, res.Depth, res.WallS)
+			ctx.AddModel(res.Distinct, res.Generated)
+			ctx.SetExtra("tlc_"+m.name, map[string]any{"distinct": res.Distinct, "generated": res.Generated, "depth": res.Depth, "wall_s": res.WallS})
+			if m.coverage {
+				var never []string
+				for a, n := range actionCounts(res.Output) {
+					if n == 0 {
+						never = append(never, a)
+					}
+				}
+				sort.Strings(never)
+				ctx.SetExtra("actions_never_taken", never)
+				if len(never) > 0 && firstErr == nil {
+					firstErr = fmt.Errorf("vacuity audit: actions of ConnMgr.tla never taken: %v", never)
+				}
+				if len(actionCounts(res.Output)) < 20 && firstErr == nil {
+					firstErr = fmt.Errorf("vacuity audit: coverage output not understood (%d actions)", len(actionCounts(res.Output)))
+				}
+			}
+		}(m)
+	}
+	wg.Wait()
+	return firstErr
+}
+
+// ------------------------------------------------------------------------------------
+// scenarios
+
+func capUS() int { return int(ProcessCap / time.Microsecond) }
+
+func genScenarios(ctx *vrun.Ctx, t tier) []Scenario {
+	rng := ctx.Rand("connmgr-scenarios")
+	var scs []Scenario
+	add := func(sc Scenario) {
+		sc.ID = len(scs)
+		sc.Cap = capUS()
+		if sc.RU == 0 {
+			sc.RU = 2000
+		}
+		if sc.Target == 0 {
+			sc.Target = 1
+		}
+		scs = append(scs, sc)
+	}
+	// the recorded divergences, deterministically
+	add(Scenario{Kind: "script", Seed: 1, Target: 1, GNA: true, Manual: []bool{false}, Script: []Act{
+		{K: "gna"}, {K: "dialok", A: 101}, {K: "settle", A: 5}, {K: "connect"}, {K: "dialfail", A: 1}, {K: "gna"}, {K: "dialok", A: 102}, {K: "sleep", A: 2000}}})
+	add(Scenario{Kind: "script", Seed: 2, Target: 1, GNA: true, Manual: []bool{false}, Script: []Act{
+		{K: "gna"}, {K: "dialok", A: 101}, {K: "settle", A: 5}, {K: "connect"}, {K: "dialok", A: 1}, {K: "settle", A: 10}, {K: "disc", A: 2}, {K: "sleep", A: 2000}, {K: "poll", A: 1}}})
+	// back-off up to the cap and beyond, Remove during the back-off
+	add(Scenario{Kind: "script", Seed: 3, Target: 1, GNA: false, Manual: []bool{true}, RU: 2000, Script: []Act{
+		{K: "connect"}, {K: "dialfail", A: 1}, {K: "dialfail", A: 1}, {K: "dialfail", A: 1}, {K: "dialfail", A: 1}, {K: "dialfail", A: 1}, {K: "dialok", A: 1},
+		{K: "settle", A: 24}, {K: "disc", A: 1}, {K: "dialfail", A: 1}, {K: "settle", A: 36}, {K: "rem", A: 1}, {K: "sleep", A: 9000}, {K: "poll", A: 1}}})
+	add(Scenario{Kind: "script", Seed: 4, Target: 1, GNA: false, Manual: []bool{true}, RU: 3000, Script: []Act{
+		{K: "connect"}, {K: "dialfail", A: 1}, {K: "dialfail", A: 1}, {K: "dialfail", A: 1}, {K: "dialok", A: 1}, {K: "settle", A: 18}, {K: "rem", A: 1}, {K: "sleep", A: 4000}, {K: "poll", A: 1}}})
+	nMax := 1
+	if ctx.Thorough {
+		nMax = 3
+	}
+	for i := 0; i < nMax; i++ {
+		add(Scenario{Kind: "maxfail", Seed: int64(10 + i), Target: 1 + i%2, GNA: true, GnaErrs: 26 + i})
+	}
+	for i := 0; i < t.order; i++ {
+		add(Scenario{Kind: "order", Seed: int64(20 + i), Target: 1, GNA: i%2 == 0, Manual: []bool{i%3 == 0}})
+	}
+	for i := 0; i < t.late; i++ {
+		add(Scenario{Kind: "late", Seed: int64(40 + i), Target: 1, GNA: i%2 == 0, Manual: []bool{i%3 == 0}})
+	}
+	for i := 0; i < t.random; i++ {
+		sc := Scenario{Kind: "random", Seed: rng.Int63()}
+		sc.Target = []int{1, 1, 2, 2, 3}[rng.Intn(5)]
+		sc.GNA = rng.Intn(7) != 0
+		nm := []int{0, 0, 1, 1, 2, 3}[rng.Intn(6)]
+		for k := 0; k < nm; k++ {
+			sc.Manual = append(sc.Manual, rng.Intn(2) == 0)
+		}
+		sc.RU = []int{2000, 3000}[rng.Intn(2)]
+		sc.NList = []int{0, 0, 0, 1, 2}[rng.Intn(5)]
+		if sc.NList > 0 {
+			sc.InLim = rng.Intn(3) != 0
+			sc.InCap = rng.Intn(3)
+		}
+		sc.Steps = 8 + rng.Intn(18)
+		sc.GnaErrs = rng.Intn(4)
+		sc.DialErrs = rng.Intn(6)
+		add(sc)
+	}
+	return scs
+}
+
+// replay direction: behaviours TLC generates from ConnMgr.tla (simulation
+// mode, labels recorded) become driver scripts: the environment's choices in
+// path order.
+func genReplays(ctx *vrun.Ctx, t tier, firstID int) ([]Scenario, [][]string, error) {
+	type shape struct {
+		name   string
+		target int
+		gna    bool
+		manual []bool
+		nlist  int
+		inlim  bool
+		incap  int
+	}
+	shapes := []shape{
+		{"ReplayA", 1, true, []bool{true}, 0, false, 0},
+		{"ReplayB", 2, true, []bool{false}, 1, true, 1},
+		{"ReplayC", 1, false, []bool{true, false}, 0, false, 0},
+	}
+	per := (t.replays + len(shapes) - 1) / len(shapes)
+	type out struct {
+		scs   []Scenario
+		paths [][]string
+		err   error
+	}
+	outs := make([]out, len(shapes))
+	var wg sync.WaitGroup
+	for si, sh := range shapes {
+		wg.Add(1)
+		go func(si int, sh shape) {
+			defer wg.Done()
+			cfg := fmt.Sprintf("SPECIFICATION Spec\nCONSTANTS\n  Scenarios <- %s\n  MaxObj = 6\n  MaxFails = 3\n  MaxFailedAttempts = 25\n  MaxDisc = 2\n  MaxRem = 1\n  AllowTrig = TRUE\n  MaxAccept = 2\n  Record = TRUE\n  FixAuto = FALSE\n  FixCb = FALSE\n  FixState = FALSE\n", sh.name)
+			res, err := tlc.Run(tlc.Opts{SpecDir: ctx.SpecDir("connmgr"), Module: "MCConnMgr", CfgText: cfg,
+				Sim: &tlc.Sim{Num: per, Depth: 70, Seed: ctx.Seed*131 + int64(si)}, Timeout: 10 * time.Minute, Scratch: ctx.Scratch, HeapGB: 3})
+			if err != nil {
+				outs[si].err = fmt.Errorf("TLC -simulate (replay behaviours): %w", err)
+				return
+			}
+			for bi, beh := range res.Behaviours {
+				sc := Scenario{Kind: "script", Seed: ctx.Seed*977 + int64(si*1000+bi), Target: sh.target, GNA: sh.gna, Manual: sh.manual,
+					NList: sh.nlist, InLim: sh.inlim, InCap: sh.incap, RU: 2000, Cap: capUS()}
+				var labels []string
+				nobs := 0
+				for _, st := range beh {
+					ev := st.State["ev"]
+					el := ev.Seq()
+					if len(el) == 0 {
+						continue
+					}
+					labels = append(labels, ev.String())
+					k := el[0].Str()
+					// wait until the run has produced as many events as the behaviour had before this choice
+					switch k {
+					case "connect", "dialok", "dialfail", "disc", "rem", "stop", "wait", "accept", "inclose":
+						sc.Script = append(sc.Script, Act{K: "settle", A: nobs})
+					}
+					switch k {
+					case "connect", "gna", "gnaerr", "stop", "wait":
+						sc.Script = append(sc.Script, Act{K: k})
+					case "dialok", "dialfail":
+						sc.Script = append(sc.Script, Act{K: k, A: el[1].Int()})
+					case "disc", "rem":
+						sc.Script = append(sc.Script, Act{K: k, A: el[2].Int(), Trig: el[3].Bool()})
+					case "accept":
+						sc.Script = append(sc.Script, Act{K: k, A: el[1].Int()})
+					case "inclose":
+						sc.Script = append(sc.Script, Act{K: k, A: el[1].Int()})
+					}
+					nobs++
+				}
+				outs[si].scs = append(outs[si].scs, sc)
+				outs[si].paths = append(outs[si].paths, labels)
+			}
+		}(si, sh)
+	}
+	wg.Wait()
+	var scs []Scenario
+	var paths [][]string
+	for _, o := range outs {
+		if o.err != nil {
+			return nil, nil, o.err
+		}
+		for i := range o.scs {
+			o.scs[i].ID = firstID + len(scs)
+			scs = append(scs, o.scs[i])
+			paths = append(paths, o.paths[i])
+		}
+	}
+	return scs, paths, nil
+}
+
+// ------------------------------------------------------------------------------------
+// driving
+
+func buildDriver(ctx *vrun.Ctx, race bool) (string, bool, error) {
+	if !race {
+		exe, err := os.Executable()
+		return exe, false, err
+	}
+	hdir := filepath.Join(ctx.VerifDir, "harness")
+	args := []string{"build", "-tags", "verif", "-race"}
+	repo := os.Getenv("VERIF_REPO")
+	if repo != "" && repo != "/repo" {
+		b, err := os.ReadFile(filepath.Join(hdir, "go.mod"))
+		if err != nil {
+			return "", false, err
+		}
+		mod := strings.ReplaceAll(string(b), "=> /repo", "=> "+repo)
+		mf := filepath.Join(ctx.Scratch, "drv.go.mod")
+		if err := os.WriteFile(mf, []byte(mod), 0o644); err != nil {
+			return "", false, err
+		}
+		sum, err := os.ReadFile(filepath.Join(hdir, "go.sum"))
+		if err != nil {
+			return "", false, err
+		}
+		if err := os.WriteFile(filepath.Join(ctx.Scratch, "drv.go.sum"), sum, 0o644); err != nil {
+			return "", false, err
+		}
+		args = append(args, "-modfile="+mf)
+	}
+	out := filepath.Join(ctx.Scratch, "connmgrdrv")
+	args = append(args, "-o", out, "./cmd/connmgr")
+	cmd := exec.Command("go", args...)
+	cmd.Dir = hdir
+	cmd.Env = append(os.Environ(), "GOFLAGS=-mod=mod", "GOPROXY=off")
+	if b, err := cmd.CombinedOutput(); err != nil {
+		ctx.Logf("race build failed, using the plain build: %v\n%s", err, tail(string(b), 1500))
+		exe, err := os.Executable()
+		return exe, false, err
+	}
+	return out, true, nil
+}
+
+type raceReport struct {
+	Key  string
+	Text string
+}
+
+var reFrame = regexp.MustCompile(`(?m)^  (\S+)\(\)$`)
+
+func parseRaceLog(text string) (reports []raceReport, harnessOnly []string) {
+	for _, blk := range strings.Split(text, "==================") {
+		if !strings.Contains(blk, "WARNING: DATA RACE") {
+			continue
+		}
+		paras := strings.Split(strings.TrimSpace(blk), "\n\n")
+		var fns []string
+		for i, p := range paras {
+			if i >= 2 {
+				break
+			}
+			fn := ""
+			for _, m := range reFrame.FindAllStringSubmatch(p, -1) {
+				if strings.Contains(m[1], "github.com/btcsuite/btcd/") {
+					fn = strings.TrimPrefix(m[1], "github.com/btcsuite/btcd/")
+					break
+				}
+			}
+			fns = append(fns, fn)
+		}
+		sort.Strings(fns)
+		key := strings.Join(fns, "|")
+		if strings.Trim(key, "|") == "" {
+			harnessOnly = append(harnessOnly, blk)
+			continue
+		}
+		reports = append(reports, raceReport{Key: "race:" + key, Text: blk})
+	}
+	return
+}
+
+func drive(ctx *vrun.Ctx, t tier, scs []Scenario) ([]*Trace, []raceReport, error) {
+	drv, race, err := buildDriver(ctx, t.race)
+	if err != nil {
+		return nil, nil, err
+	}
+	if t.race {
+		if race {
+			ctx.SetExtra("race_detector", "driver built with go build -race")
+		} else {
+			ctx.SetExtra("race_detector", "unavailable: plain build")
+			ctx.Assume("go build -race was not available: data races were not looked for in this run")
+		}
+	}
+	k := t.drivers
+	if k > len(scs) {
+		k = len(scs)
+	}
+	chunks := make([][]Scenario, k)
+	for i, sc := range scs {
+		chunks[i%k] = append(chunks[i%k], sc)
+	}
+	type res struct {
+		traces []*Trace
+		races  string
+		err    error
+	}
+	results := make([]res, k)
+	var wg sync.WaitGroup
+	for i := range chunks {
+		wg.Add(1)
+		go func(i int) {
+			defer wg.Done()
+			in := filepath.Join(ctx.Scratch, fmt.Sprintf("scn.%d.json", i))
+			outp := filepath.Join(ctx.Scratch, fmt.Sprintf("traces.%d.ndjson", i))
+			b, _ := json.Marshal(chunks[i])
+			if err := os.WriteFile(in, b, 0o644); err != nil {
+				results[i].err = err
+				return
+			}
+			cmd := exec.Command(drv, "--drive", in, outp)
+			racelog := filepath.Join(ctx.Scratch, fmt.Sprintf("race.%d", i))
+			cmd.Env = append(os.Environ(), "GORACE=log_path="+racelog+" halt_on_error=0 exitcode=0 history_size=3", "GOMAXPROCS=4")
+			var stderr bytes.Buffer
+			cmd.Stderr = &stderr
+			cmd.Stdout = &stderr
+			done := make(chan error, 1)
+			if err := cmd.Start(); err != nil {
+				results[i].err = err
+				return
+			}
+			go func() { done <- cmd.Wait() }()
+			select {
+			case err := <-done:
+				if err != nil {
+					results[i].err = fmt.Errorf("driver %d: %v\n%s", i, err, tail(stderr.String(), 3000))
+					return
+				}
+			case <-time.After(40 * time.Minute):
+				cmd.Process.Kill()
+				results[i].err = fmt.Errorf("driver %d timed out", i)
+				return
+			}
+			trs, err := ReadTraces(outp)
+			if err != nil {
+				results[i].err = err
+				return
+			}
+			results[i].traces = trs
+			logs, _ := filepath.Glob(racelog + ".*")
+			for _, l := range logs {
+				b, _ := os.ReadFile(l)
+				results[i].races += string(b)
+			}
+		}(i)
+	}
+	wg.Wait()
+	var all []*Trace
+	var reports []raceReport
+	for i := range results {
+		if results[i].err != nil {
+			return nil, nil, results[i].err
+		}
+		all = append(all, results[i].traces...)
+		rs, harnessOnly := parseRaceLog(results[i].races)
+		if len(harnessOnly) > 0 {
+			return nil, nil, fmt.Errorf("data race inside the harness itself:\n%s", tail(harnessOnly[0], 3000))
+		}
+		reports = append(reports, rs...)
+	}
+	sort.Slice(all, func(i, j int) bool { return all[i].Scn.ID < all[j].Scn.ID })
+	if len(all) != len(scs) {
+		return nil, nil, fmt.Errorf("drivers returned %d traces for %d scenarios", len(all), len(scs))
+	}
+	for _, tr := range all {
+		if tr.Err != "" {
+			return nil, nil, fmt.Errorf("driver failed on scenario %d (%s): %s", tr.Scn.ID, tr.Scn.Shape(), tr.Err)
+		}
+	}
+	return all, reports, nil
+}
+
+// ------------------------------------------------------------------------------------
+// trace validation
+
+const traceCfgFmt = `SPECIFICATION TraceSpec
+CONSTANTS
+  Scenarios = {}
+  MaxObj = 80
+  MaxFails = 100000
+  MaxFailedAttempts = 25
+  MaxDisc = 100000
+  MaxRem = 100000
+  AllowTrig = TRUE
+  MaxAccept = 100000
+  Record = TRUE
+  FixAuto = FALSE
+  FixCb = FALSE
+  FixState = FALSE
+  Diag = %s
+`
+
+type verdict struct {
+	Bad    []string
+	Ids    int
+	Objs   int
+	States []string
+}
+
+func extractPrinted(out, tag string) []tla.Value {
+	var vals []tla.Value
+	re := regexp.MustCompile(`<<\s*"` + tag + `"`)
+	pos := 0
+	for {
+		loc := re.FindStringIndex(out[pos:])
+		if loc == nil {
+			break
+		}
+		start := pos + loc[0]
+		depth := 0
+		end := -1
+		inStr := false
+		for j := start; j < len(out); j++ {
+			c := out[j]
+			if inStr {
+				if c == '\\' {
+					j++
+				} else if c == '"' {
+					inStr = false
+				}
+				continue
+			}
+			switch {
+			case c == '"':
+				inStr = true
+			case c == '<' && j+1 < len(out) && out[j+1] == '<':
+				depth++
+				j++
+			case c == '>' && j+1 < len(out) && out[j+1] == '>':
+				depth--
+				j++
+				if depth == 0 {
+					end = j + 1
+				}
+			}
+			if end >= 0 {
+				break
+			}
+		}
+		if end < 0 {
+			break
+		}
+		if v, err := tla.ParseValue(out[start:end]); err == nil {
+			vals = append(vals, v)
+		}
+		pos = end
+	}
+	return vals
+}
+
+type batchResult struct {
+	accepted  map[int]verdict
+	states    int64
+	generated int64
+}
+
+func validateBatch(ctx *vrun.Ctx, traces []*Trace, diag bool) (*batchResult, string, error) {
+	res, err := tlc.Run(tlc.Opts{SpecDir: ctx.SpecDir("connmgr"), Module: "TraceConnMgr", CfgText: fmt.Sprintf(traceCfgFmt, tlaBool(diag)),
+		Files: map[string][]byte{"TraceData.tla": []byte(TraceDataModule(traces))}, Workers: 1, DFS: !diag,
+		Timeout: 20 * time.Minute, Scratch: ctx.Scratch, HeapGB: 3, KeepDir: os.Getenv("VERIF_CONNMGR_KEEP") != ""})
+	if err != nil {
+		return nil, "", fmt.Errorf("TLC TraceConnMgr: %w", err)
+	}
+	if !res.OK {
+		return nil, "", fmt.Errorf("TLC TraceConnMgr failed: %s %s\n%s", res.ErrKind, res.ErrName, tail(res.Output, 3000))
+	}
+	br := &batchResult{accepted: map[int]verdict{}, states: res.Distinct, generated: res.Generated}
+	for _, v := range extractPrinted(res.Output, "ACC") {
+		el := v.Seq()
+		if len(el) != 3 {
+			continue
+		}
+		idx := el[1].Int() - 1
+		if _, dup := br.accepted[idx]; dup {
+			continue
+		}
+		vd := verdict{Ids: el[2].F("ids").Int(), Objs: el[2].F("objs").Int()}
+		for _, b := range el[2].F("bad").Set() {
+			vd.Bad = append(vd.Bad, b.Str())
+		}
+		sort.Strings(vd.Bad)
+		for _, s := range el[2].F("states").Seq() {
+			vd.States = append(vd.States, s.Str())
+		}
+		br.accepted[idx] = vd
+	}
+	return br, res.Output, nil
+}
+
+// stuckAt returns the number of events of the trace some explanation of the
+// specification reaches (the event behind them is the first one nothing
+// explains).
+func stuckAt(ctx *vrun.Ctx, tr *Trace) (int, error) {
+	_, out, err := validateBatch(ctx, []*Trace{tr}, true)
+	if err != nil {
+		return 0, err
+	}
+	max := 0
+	for _, v := range extractPrinted(out, "PROG") {
+		el := v.Seq()
+		if len(el) == 3 && el[2].Int() > max {
+			max = el[2].Int()
+		}
+	}
+	return max, nil
+}
+
+func rejectKey(e Event) string {
+	switch e.K {
+	case "h":
+		return "rejected:handler-" + e.S
+	case "poll":
+		return "rejected:state-" + e.S
+	case "end":
+		return "rejected:final-census"
+	}
+	return "rejected:" + e.K
+}
+
+func judge(ctx *vrun.Ctx, tr *Trace, v *verdict, stuck int) {
+	if v == nil {
+		var e Event
+		if stuck < len(tr.Events) {
+			e = tr.Events[stuck]
+		}
+		what := fmt.Sprintf("scenario %d (%s): the recorded execution of the real ConnManager is not a behaviour of ConnMgr.tla: no explanation for event %d %s after %s",
+			tr.Scn.ID, tr.Scn.Shape(), stuck+1, e.TLA(), eventsString(tr.Events[max0(stuck-6):stuck]))
+		if e.K == "end" && tr.Stacks != "" {
+			what += "\ngoroutines left in the package:\n" + tail(tr.Stacks, 3000)
+		}
+		ctx.Violation(rejectKey(e), what, map[string]any{"scenario": tr.Scn, "events": tr.Events, "stuck_at": stuck + 1, "stacks": tr.Stacks})
+		return
+	}
+	for _, b := range v.Bad {
+		key, ok := badKeys[b]
+		if !ok {
+			key = "statement:" + b
+		}
+		ctx.AddExtra("observed_"+b, 1)
+		ctx.Violation(key, fmt.Sprintf("scenario %d (%s): statement %s of ConnMgr.tla does not hold on this recorded execution: %s", tr.Scn.ID, tr.Scn.Shape(), b, eventsString(tr.Events)),
+			map[string]any{"scenario": tr.Scn, "events": tr.Events, "statement": b})
+	}
+}
+
+func max0(x int) int {
+	if x < 0 {
+		return 0
+	}
+	return x
+}
+
+func validateAll(ctx *vrun.Ctx, t tier, traces []*Trace) ([]*verdict, error) {
+	type job struct{ lo, hi int }
+	var jobs []job
+	for lo := 0; lo < len(traces); lo += t.batch {
+		hi := lo + t.batch
+		if hi > len(traces) {
+			hi = len(traces)
+		}
+		jobs = append(jobs, job{lo, hi})
+	}
+	verdicts := make([]*verdict, len(traces))
+	stuck := make([]int, len(traces))
+	var mu sync.Mutex
+	var firstErr error
+	rejected := 0
+	const maxRejected = 4
+	sem := make(chan struct{}, 4)
+	var wg sync.WaitGroup
+	for _, j := range jobs {
+		wg.Add(1)
+		sem <- struct{}{}
+		go func(j job) {
+			defer wg.Done()
+			defer func() { <-sem }()
+			lo := j.lo
+			for lo < j.hi {
+				mu.Lock()
+				stop := rejected >= maxRejected || firstErr != nil
+				mu.Unlock()
+				if stop {
+					for ; lo < j.hi; lo++ {
+						stuck[lo] = -1
+					}
+					return
+				}
+				br, _, err := validateBatch(ctx, traces[lo:j.hi], false)
+				if err != nil {
+					mu.Lock()
+					if firstErr == nil {
+						firstErr = err
+					}
+					mu.Unlock()
+					return
+				}
+				ctx.AddModel(br.states, br.generated)
+				n := 0
+				for n < j.hi-lo {
+					v, ok := br.accepted[n]
+					if !ok {
+						break
+					}
+					vv := v
+					verdicts[lo+n] = &vv
+					n++
+				}
+				lo += n
+				if lo < j.hi {
+					k, err := stuckAt(ctx, traces[lo])
+					if err != nil {
+						mu.Lock()
+						if firstErr == nil {
+							firstErr = err
+						}
+						mu.Unlock()
+						return
+					}
+					stuck[lo] = k
+					lo++
+					mu.Lock()
+					rejected++
+					mu.Unlock()
+				}
+			}
+		}(j)
+	}
+	wg.Wait()
+	if firstErr != nil {
+		return nil, firstErr
+	}
+	accepted, skipped := 0, 0
+	for i, tr := range traces {
+		if verdicts[i] == nil && stuck[i] < 0 {
+			skipped++
+			continue
+		}
+		if verdicts[i] != nil {
+			accepted++
+		}
+		judge(ctx, tr, verdicts[i], stuck[i])
+		ctx.AddEval(int64(len(tr.Events)))
+	}
+	if skipped > 0 {
+		ctx.Logf("%d traces not validated: %d traces were already rejected by the specification", skipped, rejected)
+		ctx.SetExtra("traces_not_validated_after_rejections", skipped)
+	}
+	ctx.AddTraces(int64(len(traces) - skipped))
+	ctx.SetExtra("traces_accepted_by_spec", accepted)
+	return verdicts, nil
+}
+
+// negativeControls shows on every run that the binding is not vacuous: accepted
+// traces are corrupted (a wrong back-off duration, a dropped OnConnection, a
+// wrong final state, a goroutine too many in the census, a callback for a
+// canceled request) and TLC must reject every corrupted copy.
+func negativeControls(ctx *vrun.Ctx, traces []*Trace, verdicts []*verdict) error {
+	clone := func(t *Trace) *Trace {
+		c := *t
+		c.Events = append([]Event(nil), t.Events...)
+		return &c
+	}
+	var controls []*Trace
+	var names []string
+	have := map[string]bool{}
+	for i, tr := range traces {
+		if verdicts[i] == nil {
+			continue
+		}
+		for k, e := range tr.Events {
+			switch {
+			case e.K == "backoff" && !have["backoff"]:
+				c := clone(tr)
+				c.Events[k].B += tr.Scn.RU
+				controls, names = append(controls, c), append(names, "backoff")
+				have["backoff"] = true
+			case e.K == "onconn" && !have["onconn-dropped"]:
+				c := clone(tr)
+				c.Events = append(c.Events[:k:k], c.Events[k+1:]...)
+				controls, names = append(controls, c), append(names, "onconn-dropped")
+				have["onconn-dropped"] = true
+			case e.K == "poll" && e.S == "established" && !have["state"]:
+				c := clone(tr)
+				c.Events[k].S = "pending"
+				controls, names = append(controls, c), append(names, "state")
+				have["state"] = true
+			case e.K == "end" && !have["census"]:
+				c := clone(tr)
+				c.Events[k].A++
+				controls, names = append(controls, c), append(names, "census")
+				have["census"] = true
+			case e.K == "h" && e.S == "ignored" && !have["canceled-reported"]:
+				// the dial of a canceled request completed and was closed: pretend it was reported
+				c := clone(tr)
+				c.Events[k] = Event{K: "h", S: "connected", A: e.A}
+				controls, names = append(controls, c), append(names, "canceled-reported")
+				have["canceled-reported"] = true
+			case e.K == "ondisc" && !have["ondisc-twice"]:
+				c := clone(tr)
+				c.Events = append(c.Events[:k+1:k+1], append([]Event{e}, c.Events[k+1:]...)...)
+				controls, names = append(controls, c), append(names, "ondisc-twice")
+				have["ondisc-twice"] = true
+			}
+		}
+		if len(have) == 6 {
+			break
+		}
+	}
+	if len(controls) < 3 {
+		return fmt.Errorf("negative controls: only %d accepted traces to corrupt", len(controls))
+	}
+	errs := make([]error, len(controls))
+	var wg sync.WaitGroup
+	sem := make(chan struct{}, 4)
+	for i := range controls {
+		wg.Add(1)
+		sem <- struct{}{}
+		go func(i int) {
+			defer wg.Done()
+			defer func() { <-sem }()
+			br, _, err := validateBatch(ctx, controls[i:i+1], false)
+			if err != nil {
+				errs[i] = err
+				return
+			}
+			if _, ok := br.accepted[0]; ok {
+				errs[i] = fmt.Errorf("negative control %q: TraceConnMgr accepted a corrupted trace (%s): the binding is vacuous", names[i], eventsString(controls[i].Events))
+			}
+		}(i)
+	}
+	wg.Wait()
+	for _, e := range errs {
+		if e != nil {
+			return e
+		}
+	}
+	ctx.AddEval(int64(len(controls)))
+	ctx.SetExtra("negative_controls_rejected", names)
+	return nil
+}
+
+// observable labels of a recorded trace that a TLC behaviour also has
+func obsLabels(tr *Trace) []string {
+	var out []string
+	for _, e := range tr.Events {
+		if e.K == "poll" || e.K == "end" {
+			continue
+		}
+		v, err := tla.ParseValue(e.TLA())
+		if err != nil {
+			out = append(out, e.TLA())
+			continue
+		}
+		out = append(out, v.String())
+	}
+	return out
+}
+
+// RunX01 is the check.
+func RunX01(ctx *vrun.Ctx) error {
+	t := tierFor(ctx)
+	ctx.Ev.Coverage.Rule = "ConnMgr.tla model-checked exhaustively for small constants (target <= 2, <= 3 requests, <= 2 failures, <= 1 Remove, <= 2 Disconnect, Stop, Wait; inbound: <= 2 listeners, limit 0/1, <= 3 connections) with S1-S5 as invariants / action properties and S2 convergence under fairness; seeded scenarios (target 1-3, 0-3 requests through Connect, 0-2 listeners with inbound limit, Dial/GetNewAddress failures, Disconnect/Remove/Stop/Wait at random points) and TLC-generated behaviours (simulation) drive a real ConnManager whose Dial blocks on gates; every recorded trace is validated against ConnMgr.tla by TLC (TraceConnMgr.tla). distinct = scenario shape x statements flagged x final states"
+	ctx.Assume("RetryDuration is 2-3 ms and maxRetryDuration is lowered to 7 ms in the driver process (bound by name, no source change); timer firing is an unobserved step of the specification")
+	ctx.Assume("the duration of an armed retry timer and the handler's decisions are observed through the package's debug log (UseLogger), all other events at the functions put into Config and at the calls of the public methods")
+	ctx.Assume("the user calls Connect at most once per ConnReq")
+	ctx.Assume("statement S6 (DynamicBanScore arithmetic) is not specified or checked by this engine yet")
+
+	var mcErr, banErr error
+	var wg sync.WaitGroup
+	if only := os.Getenv("VERIF_CONNMGR_ONLY"); only != "" { // development switch
+		switch only {
+		case "mc":
+			return runMC(ctx, t)
+		case "ban":
+			return runBanScore(ctx, t)
+		case "traces":
+			t.mc = nil
+		}
+	}
+	wg.Add(2)
+	go func() {
+		defer wg.Done()
+		mcErr = runMC(ctx, t)
+	}()
+	go func() {
+		defer wg.Done()
+		banErr = runBanScore(ctx, t)
+	}()
+
+	scs := genScenarios(ctx, t)
+	reps, paths, err := genReplays(ctx, t, len(scs))
+	if err != nil {
+		wg.Wait()
+		return err
+	}
+	nOwn := len(scs)
+	scs = append(scs, reps...)
+	ctx.Logf("%d scenarios (%d seeded, %d from TLC behaviours)", len(scs), nOwn, len(reps))
+	traces, races, err := drive(ctx, t, scs)
+	if err != nil {
+		wg.Wait()
+		return err
+	}
+	ctx.Logf("%d scenarios driven through the real ConnManager, %d race reports", len(traces), len(races))
+	verdicts, err := validateAll(ctx, t, traces)
+	if err != nil {
+		wg.Wait()
+		return err
+	}
+	if err := negativeControls(ctx, traces, verdicts); err != nil {
+		wg.Wait()
+		return err
+	}
+	for _, r := range races {
+		ctx.Violation(r.Key, "data race reported by the race detector", map[string]any{"report": r.Text})
+	}
+	// replay direction: how many TLC behaviours the real manager followed event by event
+	followed := 0
+	for i := range reps {
+		tr := traces[nOwn+i]
+		got := obsLabels(tr)
+		want := paths[i]
+		ok := len(got) >= len(want)
+		for k := 0; ok && k < len(want); k++ {
+			if got[k] != want[k] {
+				ok = false
+			}
+		}
+		if ok {
+			followed++
+		}
+	}
+	ctx.SetExtra("tlc_behaviours_replayed", len(reps))
+	ctx.SetExtra("tlc_behaviours_followed_event_by_event", followed)
+	kinds := map[string]int{}
+	evs := 0
+	for i, tr := range traces {
+		cls := ""
+		if verdicts[i] != nil {
+			cls = strings.Join(verdicts[i].Bad, ",") + "|" + strings.Join(verdicts[i].States, ",")
+		}
+		ctx.Distinct(tr.Scn.Shape() + "|" + cls)
+		kinds[tr.Scn.Kind]++
+		evs += len(tr.Events)
+		if i%(len(traces)/4+1) == 0 {
+			ctx.Sample(map[string]any{"scenario": tr.Scn.Shape(), "events": eventsString(tr.Events)})
+		}
+	}
+	ctx.SetExtra("scenarios_by_kind", kinds)
+	ctx.SetExtra("events_recorded", evs)
+	wg.Wait()
+	if mcErr != nil {
+		return mcErr
+	}
+	return banErr
+}
+
+var _ = rand.Int
+
+func runBanScore(ctx *vrun.Ctx, t tier) error { return nil }
